@@ -6,6 +6,24 @@ _GUARD = ("                    if is_target != other_is_target or \\\n          
 _ACCEPT = "            if not isinstance(term.sympy - sub_other_term, Add):\n                return sub"
 _ZERO = "            if sub_other_term is S.Zero and other_term.sympy is not S.Zero:\n                continue\n"
 
+_CACHE_DEF = ("def find_compatible_terms(terms: list[e.Term]) -> dict:",
+              "_term_data_cache: dict = {}\n\n\ndef find_compatible_terms(terms: list[e.Term]) -> dict:")
+
+
+def _CACHE_LOOKUP(key):
+    return ("    for term_i, term in enumerate(terms):\n        # target indices\n        target = term.target\n",
+            "    for term_i, term in enumerate(terms):\n"
+            f"        if (cached := _term_data_cache.get({key}, None)) is not None:\n"
+            "            target, pattern, key = cached\n            term_target.append(target)\n"
+            "            term_pattern.append(pattern)\n            filtered_terms[key].append(term_i)\n            continue\n"
+            "        # target indices\n        target = term.target\n")
+
+
+def _CACHE_STORE(key):
+    return ("        filtered_terms[key].append(term_i)\n\n    compatible_terms = {}",
+            f"        filtered_terms[key].append(term_i)\n        _term_data_cache[{key}] = (target, pattern, key)\n\n    compatible_terms = {{}}")
+
+
 WITNESSES = [
     # ------------------------------------------------------------------ breaking edits (old set, rule ids kept)
     dict(id="c07-accept-without-test", prop="C07", file=S, expect="R07a", old=_ACCEPT, new="            return sub"),
@@ -179,4 +197,29 @@ WITNESSES = [
     # pattern: a different (but fixed) separator between position and coupling - the fingerprint partition is unchanged
     dict(id="c07-ok-pattern-separator", prop="C07", file=E, expect=None,
          old="            c = f\"_{'_'.join(sorted(coupl[i]))}\" if i in coupl else None", new="            c = f\"|{'|'.join(sorted(coupl[i]))}\" if i in coupl else None"),
+
+    # ------------------------------------------------------------------ state kept between calls (R07f)
+    # module-level cache of (target, pattern, key) keyed by the sympy term only: stale after the same term was seen with
+    # other target indices
+    dict(id="c07-cache-without-targets", prop="C07", file=S, expect="R07f", edits=[_CACHE_DEF, _CACHE_LOOKUP("term.sympy"),
+                                                                                  _CACHE_STORE("term.sympy")]),
+    # cache of the prefilter key only (pattern and target recomputed): still merges/separates by the stale class
+    dict(id="c07-cache-key-only", prop="C07", file=S, expect="R07f",
+         edits=[_CACHE_DEF,
+                ("        key = (length, tuple(sorted(descriptions)),\n               repeating_idx_sp(tensor_idx_list), pattern_key, target)\n",
+                 "        key = _term_data_cache.setdefault(term.sympy, (\n            length, tuple(sorted(descriptions)),\n"
+                 "            repeating_idx_sp(tensor_idx_list), pattern_key, target))\n")]),
+    # matched set kept at module level and never reset: terms matched in an earlier call are skipped later
+    dict(id="c07-matched-across-calls", prop="C07", file=S, expect=["R07f", "R07c"],
+         edits=[("def find_compatible_terms(terms: list[e.Term]) -> dict:", "_matched_terms: set = set()\n\n\ndef find_compatible_terms(terms: list[e.Term]) -> dict:"),
+                ("        matched = set()\n", "        matched = _matched_terms\n")]),
+    # correct caches: key holds the target indices as well / cache emptied at the start of every call
+    dict(id="c07-ok-cache-with-targets", prop="C07", file=S, expect=None,
+         edits=[_CACHE_DEF, _CACHE_LOOKUP("(term.sympy, term.target)"), _CACHE_STORE("(term.sympy, term.target)")]),
+    dict(id="c07-ok-cache-cleared-per-call", prop="C07", file=S, expect=None,
+         edits=[_CACHE_DEF, _CACHE_LOOKUP("term.sympy"), _CACHE_STORE("term.sympy"),
+                ("    filtered_terms = defaultdict(list)\n", "    _term_data_cache.clear()\n    filtered_terms = defaultdict(list)\n")]),
+    dict(id="c07-ok-cache-local", prop="C07", file=S, expect=None,
+         edits=[("    filtered_terms = defaultdict(list)\n", "    _term_data_cache: dict = {}\n    filtered_terms = defaultdict(list)\n"),
+                _CACHE_LOOKUP("term.sympy"), _CACHE_STORE("term.sympy")]),
 ]
